@@ -95,10 +95,17 @@ def argClassName (S : Schema) : Node → Str
 
 /-! ### validate_args -/
 
-/-- `sum([kwargs.get(m, None) is not None for m in mutex])` -/
+/-- `v not in (None, "")`: a keyword counts as given unless it is `None` or the empty text (which every element
+    converter turns into `None`) -/
+def given : Node → Bool
+  | .val .none => false
+  | .val (.str []) => false
+  | _ => true
+
+/-- `sum([kwargs.get(m, None) not in (None, "") for m in mutex])` -/
 def mutexCount (kw : List (Str × Node)) (group : List Str) : Nat :=
   (group.filter (fun m => match lookup m kw with
-    | some v => notNone v
+    | some v => given v
     | none => false)).length
 
 def enforceCount (kw : List (Str × Node)) (groups : List (List Str)) (pred : Nat → Bool) : PyM Unit :=
